@@ -143,6 +143,9 @@ func c07AttData(k byte) *phase0.AttestationData {
 	case 'B':
 		d.BeaconBlockRoot = root('B')
 		d.Source.Epoch = 1
+	case 'C': // the head of A with another source checkpoint: a different value that agrees with A on the head
+		d.BeaconBlockRoot = root('A')
+		d.Source.Epoch = 1
 	case 'I':
 		d.BeaconBlockRoot = root('I')
 		d.Target.Epoch = 2
@@ -169,6 +172,9 @@ func adLabel(r *api.Response[*phase0.AttestationData], err error) (byte, error) 
 	}
 	if r == nil || r.Data == nil {
 		return '?', nil
+	}
+	if r.Data.BeaconBlockRoot == root('A') && r.Data.Source != nil && r.Data.Source.Epoch == 1 {
+		return 'C', nil
 	}
 	return r.Data.BeaconBlockRoot[0], nil
 }
@@ -362,7 +368,7 @@ func c07Strats() []c07Strat {
 				return adLabel(s.AttestationData(ctx, &api.AttestationDataOpts{Slot: c07Slot, CommitteeIndex: 1}))
 			}
 		}},
-		{name: "attestationdata/majority", fam: "majority", kinds: "ABIJE", thresh: true, mk: func(e *c07Env) func(context.Context) (byte, error) {
+		{name: "attestationdata/majority", fam: "majority", kinds: "ABCIJE", thresh: true, mk: func(e *c07Env) func(context.Context) (byte, error) {
 			s, err := admajority.New(bg, admajority.WithLogLevel(zerolog.Disabled), admajority.WithClientMonitor(mon), admajority.WithProcessConcurrency(4),
 				admajority.WithTimeout(c07Timeout), admajority.WithChainTime(newChainTime(0, 12*time.Second, 32)), admajority.WithBlockRootToSlotCache(tableCache{}),
 				admajority.WithThreshold(e.threshold), admajority.WithAttestationDataProviders(adProviders(e)))
@@ -529,7 +535,7 @@ func c07Strats() []c07Strat {
 // score of a valid kind: every strategy's own score function ranks A above B by construction of the data.
 func c07Score(k byte) int {
 	switch k {
-	case 'A':
+	case 'A', 'C':
 		return 2
 	case 'B':
 		return 1
@@ -558,7 +564,7 @@ func c07Units(tier string) []hx.Unit {
 					k0, l0 := k0, l0
 					e := &c07Env{}
 					call := new(func(context.Context) (byte, error))
-					u := hx.Unit{Name: fmt.Sprintf("C07/%s/n%d/%c%d", st.name, n, kinds[k0], c07Lats[lats[l0]]), Cfg: mc.Config{Horizon: int64(40 * time.Second), Deviation: n == 3}}
+					u := hx.Unit{Name: fmt.Sprintf("C07/%s/n%d/%c%d", st.name, n, kinds[k0], c07Lats[lats[l0]]), Cfg: mc.Config{Horizon: int64(40 * time.Second), Deviation: n == 3, MaxSteps: 20000}}
 					switch {
 					case n <= 2 && tier == "thorough":
 						u.Bound = 2
@@ -628,7 +634,7 @@ func c07Check(st *c07Strat, e *c07Env, r *mc.Result) mc.Verdict {
 	if t1 > timeout {
 		return fail("returned-after-timeout", "returned after the configured timeout")
 	}
-	valid := func(k byte) bool { return k == 'A' || k == 'B' || ((k == 'I' || k == 'J') && !strings.Contains(st.kinds, "I")) }
+	valid := func(k byte) bool { return k == 'A' || k == 'B' || k == 'C' || ((k == 'I' || k == 'J') && !strings.Contains(st.kinds, "I")) }
 	// arrival sets
 	type arr struct {
 		k byte
@@ -741,7 +747,7 @@ func init() {
 	hx.Register(&hx.Prop{
 		ID:    "C07",
 		Title: "Multi-node strategies return the right valid answer, in bounded time",
-		Rule: "for each of the strategy implementations and n = 1..3 scripted beacon nodes: every assignment of response kind (valid-high, valid-low, invalid where the strategy has a validity rule, error) and latency (0, <soft, =soft, between, =timeout, never, late ignoring cancellation) per node, and for majority every threshold 1..n; " +
+		Rule: "for each of the strategy implementations and n = 1..3 scripted beacon nodes: every assignment of response kind (valid-high, valid-low, for the attestation data majority also a value sharing the head of valid-high but differing in its source, invalid where the strategy has a validity rule, error) and latency (0, <soft, =soft, between, =timeout, never, late ignoring cancellation) per node, and for majority every threshold 1..n; " +
 			"per assignment every order of same-instant events and every select tie within the schedule bound (n<=2: preemption bound 1 quick / 2 thorough; n=3: deviation bound 0 quick / 1 thorough); oracle on the observed return instant against the arrival sets; non-trivial = more than one node or a select tie; distinct = distinct (family, result, return second) outcomes",
 		Assumptions: []string{
 			"nodes honour request cancellation except the explicit 'late ignoring cancellation' latency",
